@@ -438,8 +438,18 @@ impl Prop for C19 {
             v.push(json!({"gen": "range", "n": 0, "seed": seed, "stream": stream, "fault": null, "baseline": d}));
             for at in 0..d {
                 let in_key = at < kd + 4;
-                let take = in_key || tier == Tier::Thorough || sch.chance(1, 10);
-                if !take {
+                // the first few group elements drawn after the embedded key pair (bases, strides,
+                // ...) get the group-element faults in every tier
+                let near_key = at < kd + 16;
+                let fill_here = dl.get(at) == Some(&crate::rng::DrawKind::Fill(96));
+                let visit = in_key || tier == Tier::Thorough || sch.chance(1, 10);
+                if !visit {
+                    if near_key && fill_here {
+                        for kind in ["repeat", "negate"] {
+                            v.push(json!({"gen": "range", "n": 0, "seed": seed, "stream": stream,
+                                          "fault": {"at": at, "width": 1, "kind": kind}, "baseline": d}));
+                        }
+                    }
                     continue;
                 }
                 for width in 1..=3usize {
@@ -452,8 +462,7 @@ impl Prop for C19 {
                 for kind in ["q", "hiq", "2q", "repeat", "q-1", "negate"] {
                     // outside the embedded key pair the draws are group elements (a 96-byte field
                     // element, then a sign word): the group-element kinds at every such draw
-                    let fill_here = dl.get(at) == Some(&crate::rng::DrawKind::Fill(96));
-                    let take = if in_key { kind != "negate" } else if kind == "negate" || kind == "repeat" { fill_here } else { tier == Tier::Thorough && at % 4 == 0 };
+                    let take = if kind == "negate" { fill_here } else if in_key { true } else if kind == "repeat" { fill_here } else { tier == Tier::Thorough && at % 4 == 0 };
                     if !take {
                         continue;
                     }
